@@ -90,6 +90,14 @@ type nilFn struct {
 	typeSw map[types.Object]bool // type-switch vars that may be typed nil
 	collect bool
 	reqSink map[string]nilReq
+	// closures: requirements on the parameters of function literals bound to locals, checked at their call sites
+	litParams map[types.Object]litParam
+	litReqs   map[*ast.FuncLit]map[string]nilReq
+}
+
+type litParam struct {
+	lit *ast.FuncLit
+	idx int
 }
 
 func nilRules(c *Ctx) {
@@ -388,6 +396,9 @@ func (f *nilFn) rootKey(o types.Object) string {
 	if i, ok := f.params[o]; ok {
 		return fmt.Sprintf("P%d", i)
 	}
+	if lp, ok := f.litParams[o]; ok {
+		return fmt.Sprintf("C%d@%d", lp.idx, lp.lit.Pos())
+	}
 	return fmt.Sprintf("L%s@%d", o.Name(), o.Pos())
 }
 
@@ -421,12 +432,19 @@ func (f *nilFn) sourceKind(e ast.Expr, forStore bool) string {
 			if _, isParam := f.params[o]; isParam && !forStore {
 				return "param"
 			}
+			if _, isLit := f.litParams[o]; isLit && !forStore {
+				return "param"
+			}
 		}
 	}
 	if f.indexSource(e, 0) {
 		return "index"
 	}
 	p := f.e.c.P.PathOf(f.fi, e, true)
+	if p == nil || p.Root == nil {
+		// alias chain ending in a call result or a literal: classify on the local itself
+		p = f.e.c.P.PathOf(f.fi, e, false)
+	}
 	if p != nil && p.Root != nil && len(p.Steps) > 0 {
 		last := p.Steps[len(p.Steps)-1]
 		if last.Field != nil && isSpecField(last.Field) {
@@ -494,6 +512,31 @@ var nilExempt = map[string]string{
 
 func (f *nilFn) unguardedAt(e ast.Expr, k, kind, what string, pos token.Pos, store bool, short string) {
 	origin := fmt.Sprintf("%s: %s of %s", f.fi.QName(), what, exprStr(e))
+	if strings.HasPrefix(k, "C") {
+		// rooted at a parameter of a local closure: a requirement on its call sites
+		var idx int
+		var lpos int
+		rest := k
+		rel := ""
+		if i := strings.IndexAny(k, ".["); i >= 0 {
+			rest, rel = k[:i], k[i:]
+		}
+		if n, _ := fmt.Sscanf(rest, "C%d@%d", &idx, &lpos); n == 2 {
+			for _, lp := range f.litParams {
+				if int(lp.lit.Pos()) == lpos {
+					if f.litReqs[lp.lit] == nil {
+						f.litReqs[lp.lit] = map[string]nilReq{}
+					}
+					r := nilReq{param: idx, rel: rel, origin: origin, pos: pos, fn: f.fi, store: store}
+					if _, ok := f.litReqs[lp.lit][r.key()]; !ok {
+						f.litReqs[lp.lit][r.key()] = r
+					}
+					return
+				}
+			}
+		}
+		return
+	}
 	if strings.HasPrefix(k, "P") {
 		// rooted at a parameter
 		idx, rel := splitParamKey(k)
@@ -963,6 +1006,22 @@ func (f *nilFn) expr(e ast.Expr, st nstate) {
 			}
 		}
 	case *ast.FuncLit:
+		if f.litParams == nil {
+			f.litParams = map[types.Object]litParam{}
+			f.litReqs = map[*ast.FuncLit]map[string]nilReq{}
+		}
+		i := 0
+		for _, fl := range x.Type.Params.List {
+			if len(fl.Names) == 0 {
+				i++
+			}
+			for _, nm := range fl.Names {
+				if o := f.info.Defs[nm]; o != nil {
+					f.litParams[o] = litParam{lit: x, idx: i}
+				}
+				i++
+			}
+		}
 		sub := *f
 		sub.exits = nil
 		sub.stmts(x.Body.List, st.clone())
@@ -998,7 +1057,20 @@ func (f *nilFn) call(call *ast.CallExpr, st nstate) {
 		f.expr(a, st)
 	}
 	fns, closures := f.e.c.P.Callees(f.fi, call)
-	_ = closures
+	for _, lit := range closures {
+		reqs := f.litReqs[lit]
+		keys := make([]string, 0, len(reqs))
+		for k := range reqs {
+			keys = append(keys, k)
+		}
+		sort.Strings(keys)
+		for _, rk := range keys {
+			r := reqs[rk]
+			if r.param < len(call.Args) {
+				f.checkReqNamed(call.Args[r.param], r, st, call.Pos(), "the local closure "+exprStr(call.Fun))
+			}
+		}
+	}
 	for _, callee := range fns {
 		cf := f.e.c.P.Funcs[callee]
 		if cf == nil {
@@ -1028,6 +1100,10 @@ func (f *nilFn) call(call *ast.CallExpr, st nstate) {
 
 // checkReq checks one callee requirement at a call site.
 func (f *nilFn) checkReq(arg ast.Expr, r nilReq, st nstate, pos token.Pos, callee *core.FuncInfo) {
+	f.checkReqNamed(arg, r, st, pos, callee.Obj.Name())
+}
+
+func (f *nilFn) checkReqNamed(arg ast.Expr, r nilReq, st nstate, pos token.Pos, calleeName string) {
 	ak := f.key(arg)
 	if r.rel == "" {
 		// the argument itself must be non-nil: matters only when it is a maybe-nil source
@@ -1039,8 +1115,8 @@ func (f *nilFn) checkReq(arg ast.Expr, r nilReq, st nstate, pos token.Pos, calle
 		if ak != "" && st[ak] {
 			return
 		}
-		what := fmt.Sprintf("passed to %s, which uses it without a nil test (%s)", callee.Obj.Name(), r.origin)
-		f.unguardedAt(arg, ak, kind, what, pos, false, "passed to "+callee.Obj.Name())
+		what := fmt.Sprintf("passed to %s, which uses it without a nil test (%s)", calleeName, r.origin)
+		f.unguardedAt(arg, ak, kind, what, pos, false, "passed to "+calleeName)
 		return
 	}
 	if ak == "" {
@@ -1050,7 +1126,7 @@ func (f *nilFn) checkReq(arg ast.Expr, r nilReq, st nstate, pos token.Pos, calle
 	if st[ak+r.rel] {
 		return
 	}
-	what := fmt.Sprintf("%s%s is used by %s without a nil test (%s)", exprStr(arg), r.rel, callee.Obj.Name(), r.origin)
+	what := fmt.Sprintf("%s%s is used by %s without a nil test (%s)", exprStr(arg), r.rel, calleeName, r.origin)
 	full := ak + r.rel
 	if strings.HasPrefix(full, "P") {
 		idx, rel := splitParamKey(full)
@@ -1068,6 +1144,6 @@ func (f *nilFn) checkReq(arg ast.Expr, r nilReq, st nstate, pos token.Pos, calle
 	if !f.collect {
 		return
 	}
-	f.e.viols[f.fi.QName()+"/"+exprStr(arg)+r.rel+"/"+callee.Obj.Name()] = nilViol{fn: f.fi, pos: pos,
+	f.e.viols[f.fi.QName()+"/"+exprStr(arg)+r.rel+"/"+calleeName] = nilViol{fn: f.fi, pos: pos,
 		what: fmt.Sprintf("%s may be nil here (optional part of the document model) and is not tested on this path: %s", exprStr(arg)+r.rel, what), origin: r.origin}
 }
